@@ -1,3 +1,4 @@
+import RNacos.Lemmas.MgrSplit
 import RNacos.Lemmas.LogHistory
 /-!
 # C03 — Raft log: truncation removes exactly the suffix; log stays appendable
@@ -154,5 +155,94 @@ example :
     f.startIndex ≤ 2 ∧ 2 < endIndex f ∧ (strip f 2).isSome ∧
     ((strip f 2).map fun g => readRecords g 0 9) = some (some [⟨1, 1, [7]⟩]) := by
   decide +kernel
+
+end RNacos.Props.C03
+
+/-! ## the whole log: several files (manager level) -/
+namespace RNacos.Props.C03
+open RNacos.LogManager RNacos.LogStore
+
+/-- every visible entry lies below the next expected index -/
+theorem absEnts_lt_next (ys : List File) (l : File) (hc : Chain (ys ++ [l])) :
+    ∀ e ∈ absEnts (ys ++ [l]), e.index < endIdx l := by
+  obtain ⟨hp, hl, _⟩ := (chain_snoc_iff ys l).1 hc
+  intro e he
+  rw [absEnts_snoc, List.mem_append] at he
+  rcases he with he | he
+  · simp only [absEnts, List.mem_flatMap] at he
+    obtain ⟨f, hf, hef⟩ := he
+    have hm := pre_mem ys _ hp f hf
+    have := (mem_visible_bounds f hm.2.1 e hef).2
+    have := hl.hi
+    omega
+  · exact (mem_visible_bounds l hl e he).2
+
+/-- **`delete_logs_from(k)` refines the specification's `deleteFrom`, in one file or in several**: exactly the entries
+from `k` on disappear, the next append is expected at `k` (or where it was, for a cut beyond the end), the file that
+holds the cut is the open log - for every cut that is not below a compaction / snapshot pointer (`hk`, `hk0`: Raft
+cuts only uncommitted entries) -/
+theorem manager_delete_refines (fs : List File) (hc : Chain fs) (hne : fs ≠ []) (k t : Nat) (p : Option (Nat × Nat))
+    (hk : ∀ f ∈ fs, f.start < f.splitOff → f.splitOff ≤ k)
+    (hk0 : ∀ f0, fs.head? = some f0 → f0.start ≤ k) :
+    Chain (strip ⟨fs, p⟩ k).files ∧
+    absEnts (strip ⟨fs, p⟩ k).files = (deleteFrom ⟨absEnts fs, absNext fs, t, p⟩ k).ents ∧
+    absNext (strip ⟨fs, p⟩ k).files = (deleteFrom ⟨absEnts fs, absNext fs, t, p⟩ k).next := by
+  obtain ⟨h1, h2, h3⟩ := strip_spec fs p hc hne k hk hk0
+  rcases snoc_cases fs with h | ⟨ys, l, h⟩
+  · exact absurd h hne
+  · subst h
+    refine ⟨h1, ?_, ?_⟩
+    · rw [h2]
+      simp only [deleteFrom, absNext_snoc]
+      by_cases hge : k ≥ endIdx l
+      · simp only [hge, if_true]
+        rw [List.filter_eq_self]
+        intro e he
+        have := absEnts_lt_next ys l hc e he
+        simp; omega
+      · simp only [hge, if_false]
+    · rw [h3]
+      simp only [deleteFrom, absNext_snoc, Option.map_some]
+      by_cases hge : k ≥ endIdx l
+      · simp only [hge, if_true]; congr 1; omega
+      · simp only [hge, if_false]; congr 1; omega
+
+/-- **compaction / installation pointer**: everything up to the pointer's index disappears, the pointer takes its
+place, later entries and the next expected index are untouched - for a pointer inside the log (`hend`) and not below
+the previous one (`hlo`).  At the excluded point - a pointer beyond the end of a non-empty log, i.e. a snapshot installed
+on a node that fell behind - the unrepaired code kept the old log and refused every later entry (defect F28) -/
+theorem manager_pointer_refines (full : File → Bool) (hfresh : ∀ f : File, f.recs = [] → full f = false)
+    (fs : List File) (hc : Chain fs) (i t lt : Nat) (p : Option (Nat × Nat))
+    (hend : ∀ l, fs.getLast? = some l → i + 1 ≤ endIdx l)
+    (hlo : ∀ f0, fs.head? = some f0 → f0.splitOff ≤ i + 1) :
+    Chain (savePointerFs full fs i t) ∧
+    absEnts (savePointerFs full fs i t) = (LogStore.savePointer ⟨absEnts fs, absNext fs, lt, p⟩ i t).ents ∧
+    absNext (savePointerFs full fs i t) = (LogStore.savePointer ⟨absEnts fs, absNext fs, lt, p⟩ i t).next := by
+  obtain ⟨h1, h2, h3⟩ := savePointer_spec full hfresh fs hc i t hend hlo
+  refine ⟨h1, ?_, ?_⟩
+  · by_cases hne : fs = []
+    · subst hne; simp only [LogStore.savePointer, absNext, List.getLast?_nil, Option.map_none]; exact (h2 rfl).1
+    · rcases snoc_cases fs with h | ⟨ys, l, h⟩
+      · exact absurd h hne
+      · rw [(h3 hne).1]; subst h
+        simp only [LogStore.savePointer, absNext_snoc]
+        rfl
+  · by_cases hne : fs = []
+    · subst hne; simp only [LogStore.savePointer, absNext, List.getLast?_nil, Option.map_none]; exact (h2 rfl).2
+    · rcases snoc_cases fs with h | ⟨ys, l, h⟩
+      · exact absurd h hne
+      · rw [(h3 hne).2]; subst h
+        simp only [LogStore.savePointer, absNext_snoc]
+
+/-- non-vacuity: a log in two files, cut in the first one: the second file goes, the first is the open log again and
+takes the next append at the cut -/
+def full2 : File → Bool := fun f => decide (f.recs.length ≥ 2)
+def twoFiles : List File := (writeBatchFs full2 [] (mkEnts 1 1 3 5 0)).1
+
+example :
+    twoFiles.length = 2 ∧ (strip ⟨twoFiles, none⟩ 2).files.length = 1 ∧
+      absEnts (strip ⟨twoFiles, none⟩ 2).files = mkEnts 1 1 1 5 0 ∧
+      (writeOne full2 (strip ⟨twoFiles, none⟩ 2).files ⟨2, 2, .normal 1 9⟩ 2).2 = .ok := by
+  decide
 
 end RNacos.Props.C03
